@@ -16,6 +16,7 @@ func init() {
 		Explain: "Decides RPC gating for every request sequence as shape facts of the dispatcher: every handler call in AgentIPC.handleRequest except the handshake is unreachable once the edges establishing 'version != 0' (and 'command == handshake') are cut, and every handler call except handshake and auth is unreachable once the edges establishing 'no auth key configured', 'didAuth', 'command == auth' and 'command == handshake' are cut; each call sits in the switch arm of its own command constant (the command is never written); handlers are called from nowhere else and the dispatcher only from the client loop; IPCClient.version is written only by the handshake handler behind version-in-range ∧ not-yet-set, didAuth only by the auth handler behind key equality; both reject paths send a header carrying the request's sequence number and a non-empty constant error before returning; the dispatcher itself touches no agent state.",
 		Run:     runC24,
 		Mutants: []Mutant{
+			{Name: "reply-left-in-buffer", File: "cmd/serf/command/agent/ipc.go", Func: "func (c *IPCClient) Send(", Old: "\tif err := c.writer.Flush(); err != nil {\n", New: "\tif c.reader.Buffered() > 0 {\n\t\treturn nil\n\t}\n\tif err := c.writer.Flush(); err != nil {\n", Expect: "R4|Send:flushes-before-success"},
 			{Name: "auth-key-normalised", File: "cmd/serf/command/agent/ipc.go", Func: "func NewAgentIPC(", Old: "authKey:                 authKey,", New: "authKey:                 strings.TrimSpace(authKey),", Expect: "R6"},
 			{Name: "gate-discards-body", File: "cmd/serf/command/agent/ipc.go", Func: "func (i *AgentIPC) handleRequest(", Old: "\t\trespHeader := responseHeader{Seq: seq, Error: authRequired}\n\t\tclient.Send(&respHeader, nil)\n\t\treturn nil\n", New: "\t\trespHeader := responseHeader{Seq: seq, Error: authRequired}\n\t\tclient.Send(&respHeader, nil)\n\t\tvar skipped any\n\t\t_ = client.dec.Decode(&skipped)\n\t\treturn nil\n", Expect: "R5"},
 			{Name: "rename-locals", Equivalent: true, Regexp: true, File: "cmd/serf/command/agent/ipc.go", Func: "func (i *AgentIPC) handleHandshake(", Old: `\b(req|resp)\b`, New: "${1}Renamed"},
@@ -253,6 +254,7 @@ func runC24(c *an.Ctx) {
 		c.Add(after == nil, "R4", "reject:no-dispatch-after:"+okErr, s, "no handler runs after a reject reply", "reachability")
 	}
 	c.Floor("R4", "reject replies in the dispatcher", nRej, 3)
+	sendAlwaysFlushes(c, "R4")
 	_ = rejects
 	// every path that skips all handlers passes a Send (no silent drop)
 	isHandlerOrSend := func(in ssa.Instruction) bool {
@@ -381,6 +383,7 @@ func handlerListFresh(c *an.Ctx, rule string) {
 
 func runC25(c *an.Ctx) {
 	handlerListFresh(c, "R8")
+	sendAlwaysFlushes(c, "R7")
 	c.Rule("R7 a record is written atomically: every Encode on the connection's encoder and the Flush of its writer happen with writeLock held, the Flush in the section of the Encodes (two senders on one connection cannot interleave or duplicate bytes)")
 	{
 		locks7 := an.NewLocks(c.P)
@@ -721,4 +724,29 @@ func chanSource(v ssa.Value) string {
 		}
 	}
 	return an.Path(v)
+}
+
+// sendAlwaysFlushes: IPCClient.Send hands the record to the connection before it reports success — every
+// path to a nil result passes the writer's Flush (a reply left in the buffer is lost when the connection is
+// torn down). Shared by C24 (a rejected command gets its reply) and C25.
+func sendAlwaysFlushes(c *an.Ctx, rule string) {
+	snd := am(c, rule, "IPCClient", "Send")
+	if snd == nil {
+		return
+	}
+	isFlush := func(in ssa.Instruction) bool {
+		return an.IsCallTo(in, "bufio.(*Writer).Flush") && an.Path(an.CallOf(in).Args[0]) == "$0.writer"
+	}
+	bad := an.ReachFrom(snd, nil, &an.Cut{Instrs: isFlush}, func(in ssa.Instruction) bool {
+		r, ok := in.(*ssa.Return)
+		if !ok {
+			return false
+		}
+		v := an.ResultValues(r)
+		return len(v) == 1 && an.IsNilConst(v[0])
+	})
+	c.Add(bad == nil, rule, "Send:flushes-before-success", snd, "Send returns nil only after the writer was flushed (no reply is left behind in the buffer)", "reach/cut must-pass of Flush before every nil return")
+	if bad != nil {
+		c.Obs[len(c.Obs)-1].Desc += " — nil return without a flush at " + c.P.InstrPos(bad)
+	}
 }
